@@ -177,8 +177,16 @@ func runC09(r *R) {
 	if diagAnsw != nil {
 		gun["answlog"] = diagAnsw
 	}
+	// one run in five spreads its requests over 4-9 s: connections (and tunnels) must live on past the dial and
+	// handshake timeouts of the client
+	var rps map[string]interface{}
+	if w.Draw(5) == 0 {
+		secs := 4 + w.Draw(6)
+		rps = map[string]interface{}{"type": "const", "ops": float64(total+2) / float64(secs), "duration": fmt.Sprintf("%ds", secs)}
+		r.Note("requests-spread-over-seconds")
+	}
 	var tgt *httpTarget
-	res := runHTTPPool(r, httpPoolSpec{Ammo: ammo, Gun: gun, Instances: inst, Tokens: total + 2, Files: map[string][]byte{"/ammo/ammo.txt": file}},
+	res := runHTTPPool(r, httpPoolSpec{Ammo: ammo, Gun: gun, Instances: inst, Tokens: total + 2, RPS: rps, Files: map[string][]byte{"/ammo/ammo.txt": file}},
 		func(nw *simnet.Net) {
 			nw.Latency = lat
 			if chunk > 0 {
@@ -287,6 +295,12 @@ func runC09(r *R) {
 			got, ok := s.Hdr[k]
 			if wireManaged[k] && k != "User-Agent" {
 				continue
+			}
+			if !ok && len(v) == 1 && v[0] == "" && k == "User-Agent" {
+				continue // an empty User-Agent is how net/http is told to send none
+			}
+			if !ok && gunKind == "http2" && k == "Cookie" && cookieCrumbs(v) == "" {
+				continue // HTTP/2 carries cookies as crumbs: an empty Cookie header has none
 			}
 			if !ok {
 				r.Fail("header-missing/"+format, "entry %s arrived without header %s: %v (received: %s)", e.g.URI, k, v, hdrKey(s.Hdr, nil))
